@@ -248,7 +248,7 @@ func checkC08(c c08Case) error {
 		if got := respell(r.Heredoc); got != wantBody {
 			return fmt.Errorf("%s: body %q, want %q\nsrc: %q", where, got, wantBody, c.Src)
 		}
-		if got := respell(r.Delim); got != h.Delim || !literalOnly(r.Delim) {
+		if got := respell(r.Delim); got != h.Delim {
 			return fmt.Errorf("%s: delimiter line %q, want %q\nsrc: %q", where, got, h.Delim, c.Src)
 		}
 		if h.Quoted && !literalOnly(r.Heredoc) {
@@ -270,7 +270,36 @@ func nStr(r *ast.Redir) string {
 	return ""
 }
 
+// c08Cut is a source that ends, without a newline, right behind a delimiter line.
+type c08Cut struct {
+	Src string `json:"src"`
+}
+
+// checkC08Cut: whatever is accepted has all its here-documents. The input
+// may end behind the delimiter of the last pending here-document; behind an
+// earlier one the others have no body, and the command is not complete.
+func checkC08Cut(c c08Cut) error {
+	cs := &countingScanner{s: c.Src}
+	for cs.off < len(c.Src) {
+		before := cs.off
+		cmds, _, err := parser.ParseCommands(nil, "c08", cs)
+		if err != nil {
+			return nil
+		}
+		for i, r := range heredocRedirs(cmds) {
+			if r.Heredoc == nil || r.Delim == nil {
+				return fmt.Errorf("accepted, but here-document %d (%s %s) has no body / delimiter line\nsrc: %q", i+1, r.Op, respell(r.Word), c.Src)
+			}
+		}
+		if cs.off == before {
+			break
+		}
+	}
+	return nil
+}
+
 func init() {
+	reg("C08", "cut", checkC08Cut)
 	reg("C08", "heredoc", checkC08)
 	triageFns["C08"] = func(p *gen.Program, r gen.Rendered) error { return checkC08(c08CaseOf(p, r.Src)) }
 }
@@ -314,6 +343,22 @@ func TestC08(t *testing.T) {
 		if err != nil {
 			fail(rt, "C08", "heredoc", c, "%v", err)
 		}
+		// the same source cut off right behind each delimiter line
+		for _, h := range p.HDs {
+			line := "\n" + h.Delim + "\n"
+			for at := strings.Index(src, line); at >= 0; {
+				cc := c08Cut{Src: src[:at+len(line)-1]}
+				if err := checkC08Cut(cc); err != nil {
+					fail(rt, "C08", "cut", cc, "%v", err)
+				}
+				st.Class("cut_behind_a_delimiter_line")
+				nx := strings.Index(src[at+1:], line)
+				if nx < 0 {
+					break
+				}
+				at += 1 + nx
+			}
+		}
 		compound := 0
 		for k, v := range p.Feat {
 			if strings.HasPrefix(k, "kind:") && k != "kind:simple" || k == "word:cmdsubst" {
@@ -326,6 +371,11 @@ func TestC08(t *testing.T) {
 		}
 		st.Eval(len(p.HDs) >= 2 || len(p.HDs) == 1 && (compound > 0 || special), src)
 		st.Class(fmt.Sprintf("heredocs_%d", len(p.HDs)))
+		for k, v := range p.Feat {
+			if strings.HasPrefix(k, "heredoc_") {
+				st.ClassN(k, int64(v))
+			}
+		}
 		for _, h := range p.HDs {
 			if h.Quoted {
 				st.Class("delimiter_quoted")
@@ -345,5 +395,5 @@ func TestC08(t *testing.T) {
 		}
 	}
 	runRapid(t, n, prop)
-	st.Note("generated commands with 0-4 here-documents at every redirection site (simple command prefix/suffix, after compound closers, both sides of | && ;, inside compound bodies and $( )), << and <<-, io-numbers, plain / single- / double- / backslash- / partially quoted delimiters, bodies with empty first lines, delimiter look-alikes, tab-indented lines and delimiters, $x ${x:-y} $(c) `c` \\$ \\\\ \\q; compared per redirection: operator, delimiter word, body re-spelled byte for byte, delimiter line, expansion parts iff the delimiter was unquoted")
+	st.Note("generated commands with 0-4 here-documents at every redirection site (simple command prefix/suffix, after compound closers, both sides of | && ;, inside compound bodies and $( )), << and <<-, io-numbers, plain / single- / double- / backslash- / partially quoted delimiters, bodies with empty first lines, delimiter look-alikes, tab-indented lines and delimiters, $x ${x:-y} $(c) `c` \\$ \\\\ \\q; compared per redirection: operator, delimiter word, body re-spelled byte for byte, delimiter line, expansion parts iff the delimiter was unquoted; delimiters with $x, ${y}, $$ and backquotes in them, body lines with the literal parts of such a delimiter and lines that end in the delimiter text behind an expansion; every source also cut off right behind each delimiter line (what is accepted then has all its here-documents)")
 }
